@@ -453,3 +453,371 @@ Proof.
         rewrite (span_complete _ _ _ F Hn). apply (G "").
       * crunch. rewrite (zero_not _ Nz), Hc. rewrite (span_complete _ _ _ F Hn). apply (G "-").
 Qed.
+
+(* ------------------------------------------------------------ strings *)
+Lemma quote_is c : is_c 39 c = true <-> c = "'"%char.
+Proof. split; [intros H; apply is_c_true in H; subst; reflexivity | intros ->; reflexivity]. Qed.
+Lemma quote_not c : c <> "'"%char -> is_c 39 c = false.
+Proof. intros N. destruct (is_c 39 c) eqn:E; [|reflexivity]. apply quote_is in E. contradiction. Qed.
+
+Lemma str_loop_sound n : forall s a b, String.length s <= n -> str_loop s = Some (a, b) ->
+  s = a ++ b /\ hd_ok (fnot (is_c 39)) b /\ exists body, a = body ++ "'" /\ str_body body.
+Proof.
+  induction n as [|n IH]; intros s a b L H.
+  { destruct s; [discriminate|cbn in L; lia]. }
+  destruct s as [|r s']; [discriminate|]. cbn [str_loop] in H. cbn in L.
+  destruct (is_c 39 r) eqn:Q.
+  - apply quote_is in Q. subst r.
+    destruct s' as [|r2 s''].
+    + inv H. repeat split; auto. exists "". split; [reflexivity|constructor].
+    + destruct (is_c 39 r2) eqn:Q2.
+      * apply quote_is in Q2. subst r2.
+        destruct (str_loop s'') as [[a' b']|] eqn:E; [|discriminate]. inv H.
+        cbn in L. apply IH in E; [|lia]. destruct E as (-> & Hd & body & -> & Hb).
+        repeat split; auto. exists (String "'" (String "'" body)). split; [reflexivity|now constructor].
+      * inv H. repeat split; auto.
+        { cbn. unfold fnot. now rewrite Q2. }
+        exists "". split; [reflexivity|constructor].
+  - destruct (str_loop s') as [[a' b']|] eqn:E; [|discriminate]. inv H.
+    apply IH in E; [|lia]. destruct E as (-> & Hd & body & -> & Hb).
+    repeat split; auto. exists (String r body). split; [reflexivity|].
+    constructor; auto. intros ->. discriminate.
+Qed.
+
+Lemma str_loop_complete body rest : str_body body -> hd_ok (fnot (is_c 39)) rest ->
+  str_loop (body ++ "'" ++ rest) = Some (body ++ "'", rest).
+Proof.
+  intros B Hd. induction B as [|c r Nq B IH|r B IH].
+  - cbn [append str_loop]. change (is_c 39 "'") with true. cbn iota.
+    destruct rest as [|r2 s'']; [reflexivity|]. cbn in Hd. unfold fnot in Hd.
+    destruct (is_c 39 r2); [discriminate|reflexivity].
+  - cbn [append str_loop]. rewrite (quote_not _ Nq). cbn [append] in IH. now rewrite IH.
+  - cbn [append str_loop]. change (is_c 39 "'") with true. cbn iota.
+    cbn [append] in IH. now rewrite IH.
+Qed.
+
+Lemma drop_last_app x c : drop_last (x ++ String c "") = Some x.
+Proof.
+  induction x as [|d x IH]; [reflexivity|]. destruct x as [|d' x']; [reflexivity|].
+  cbn [append] in *.
+  change (drop_last (String d (String d' (x' ++ String c ""))))
+    with (option_map (String d) (drop_last (String d' (x' ++ String c "")))).
+  rewrite IH. reflexivity.
+Qed.
+
+Lemma string_lexeme_unquote s : string_lexeme s -> unquote s <> None.
+Proof. intros (body & -> & _). cbn. rewrite drop_last_app. discriminate. Qed.
+
+(* ------------------------------------------------------------ one token *)
+Lemma num_lexeme_kind strict plus k lx : num_lexeme strict plus k lx -> k = TInt \/ k = TFloat.
+Proof. destruct 1 as [|sg ip fr ex]; auto. destruct fr; destruct ex; auto. Qed.
+
+Lemma num_lexeme_lexeme strict plus k lx : num_lexeme strict plus k lx -> lexeme strict plus k lx.
+Proof. intros H. destruct (num_lexeme_kind _ _ _ _ H) as [->| ->]; exact H. Qed.
+
+Local Arguments lex_num : simpl never.
+Local Arguments lex_string : simpl never.
+Local Arguments str_loop : simpl never.
+
+Lemma scan_tok_sound plus s k lx rest :
+  scan_tok plus s = SOk k lx rest -> s = lx ++ rest /\ lexeme true plus k lx /\ follow_ok k lx rest.
+Proof.
+  destruct s as [|c r]; [discriminate|]. unfold scan_tok.
+  destruct (is_ident_start c) eqn:E0.
+  { destruct (span is_ident_char r) as [a b] eqn:S. intros H. inv H.
+    apply span_sound in S. destruct S as (-> & F & Hd).
+    repeat split; auto. exists c, a. auto. }
+  destruct (is_num c || is_c 45 c) eqn:E1.
+  { intros H. apply lex_num_sound in H. destruct H as (-> & L & Fo).
+    repeat split; auto. now apply num_lexeme_lexeme. }
+  destruct (is_c 39 c) eqn:E2.
+  { apply quote_is in E2. subst c. unfold lex_string.
+    destruct (str_loop r) as [[a b]|] eqn:S; [|discriminate]. intros H. inv H.
+    apply (str_loop_sound _ _ _ _ (le_n _)) in S. destruct S as (-> & Hd & body & -> & Hb).
+    repeat split; auto. exists body. auto. }
+  destruct (is_c 125 c) eqn:E3.
+  { destruct r as [|c2 r2]; [discriminate|]. destruct (is_c 125 c2); discriminate. }
+  assert (Hopt : forall k1 k2, c = "!"%char \/ c = "<"%char \/ c = ">"%char ->
+            op_lexeme k1 (String c "") -> op_lexeme k2 (String c "=") ->
+            (k1 = TNot \/ k1 = TLess \/ k1 = TGreater) ->
+            (k2 = TNotEq \/ k2 = TLessEq \/ k2 = TGreaterEq) ->
+            lex_opt_eq c k1 k2 r = SOk k lx rest ->
+            String c r = lx ++ rest /\ lexeme true plus k lx /\ follow_ok k lx rest).
+  { intros k1 k2 _ O1 O2 K1 K2 H. unfold lex_opt_eq in H. destruct r as [|c2 r2].
+    - inv H. repeat split; auto.
+      + destruct K1 as [->|[->| ->]]; exact O1.
+      + destruct K1 as [->|[->| ->]]; exact I.
+    - destruct (is_c 61 c2) eqn:Q.
+      + apply is_c_true in Q. subst c2. inv H. repeat split; auto.
+        * destruct K2 as [->|[->| ->]]; exact O2.
+        * destruct K2 as [->|[->| ->]]; exact I.
+      + inv H. repeat split; auto.
+        * destruct K1 as [->|[->| ->]]; exact O1.
+        * destruct K1 as [->|[->| ->]]; cbn; unfold fnot; now rewrite Q. }
+  destruct (is_c 33 c) eqn:E4.
+  { apply is_c_true in E4. subst c. apply Hopt; cbn; auto. }
+  destruct (is_c 60 c) eqn:E5.
+  { apply is_c_true in E5. subst c. apply Hopt; cbn; auto. }
+  destruct (is_c 62 c) eqn:E6.
+  { apply is_c_true in E6. subst c. apply Hopt; cbn; auto. }
+  clear Hopt.
+  assert (Hdbl : forall k1 cls, op_lexeme k1 (String c (String c "")) ->
+            (k1 = TEq \/ k1 = TAnd \/ k1 = TOr) ->
+            lex_double c k1 cls r = SOk k lx rest ->
+            String c r = lx ++ rest /\ lexeme true plus k lx /\ follow_ok k lx rest).
+  { intros k1 cls O1 K1 H. unfold lex_double in H. destruct r as [|c2 r2]; [discriminate|].
+    destruct (Ascii.eqb c2 c) eqn:Q; [|discriminate]. apply Ascii.eqb_eq in Q. subst c2. inv H.
+    repeat split; auto.
+    - destruct K1 as [->|[->| ->]]; exact O1.
+    - destruct K1 as [->|[->| ->]]; exact I. }
+  destruct (is_c 61 c) eqn:E7.
+  { apply is_c_true in E7. subst c. apply Hdbl; cbn; auto. }
+  destruct (is_c 38 c) eqn:E8.
+  { apply is_c_true in E8. subst c. apply Hdbl; cbn; auto. }
+  destruct (is_c 124 c) eqn:E9.
+  { apply is_c_true in E9. subst c. apply Hdbl; cbn; auto. }
+  clear Hdbl.
+  unfold lex_char.
+  repeat match goal with
+  | |- (if is_c ?n c then _ else _) = _ -> _ =>
+      let E := fresh "E" in destruct (is_c n c) eqn:E;
+      [apply is_c_true in E; subst c; intros H; inv H; cbn; repeat split; auto|]
+  end.
+  discriminate.
+Qed.
+
+Lemma scan_tok_end plus s lx rest : scan_tok plus s = SEnd lx rest -> lx = "}}" /\ s = "}}" ++ rest.
+Proof.
+  destruct s as [|c r]; [discriminate|]. unfold scan_tok.
+  destruct (is_ident_start c). { destruct (span is_ident_char r). discriminate. }
+  destruct (is_num c || is_c 45 c) eqn:E1.
+  { unfold lex_num.
+    assert (Hfn : forall k cls l s0, follow_num k cls l s0 <> SEnd lx rest).
+    { intros k cls l s0. unfold follow_num. destruct s0; [discriminate|]. destruct (is_alnum a); discriminate. }
+    assert (Hex : forall k acc s0, lex_exp plus k acc s0 <> SEnd lx rest).
+    { intros k acc s0. unfold lex_exp. destruct s0 as [|e s1]; [apply Hfn|].
+      destruct (is_c 101 e || is_c 69 e); [|apply Hfn].
+      destruct (match s1 with
+                | String g s2 => if is_c 45 g || plus && is_c 43 g then ((acc ++ String e "") ++ String g "", s2) else (acc ++ String e "", s1)
+                | EmptyString => (acc ++ String e "", s1) end) as [acc2 s2].
+      unfold lex_exp_digits. destruct s2 as [|d s3]; [discriminate|].
+      destruct (is_c 48 d); [apply Hfn|]. destruct (is_num d); [|discriminate].
+      destruct (span is_num s3). apply Hfn. }
+    assert (Hfr : forall acc s0, lex_frac plus acc s0 <> SEnd lx rest).
+    { intros acc s0. unfold lex_frac. destruct s0 as [|c0 s1]; [apply Hex|].
+      destruct (is_c 46 c0); [|apply Hex]. destruct s1 as [|d s2]; [discriminate|].
+      destruct (is_num d); [|discriminate]. destruct (span is_num s2). apply Hex. }
+    assert (Hhx : forall pfx s0, lex_hex pfx s0 <> SEnd lx rest).
+    { intros pfx s0. unfold lex_hex. destruct s0 as [|c0 s1]; [discriminate|].
+      destruct (is_c 48 c0); [apply Hfn|]. destruct (is_hexnum c0); [|discriminate].
+      destruct (span is_hexnum s1). apply Hfn. }
+    intros H. exfalso. revert H.
+    destruct (match String c r with
+              | String c0 r0 => if is_c 45 c0 then ("-", r0) else ("", String c r)
+              | EmptyString => ("", String c r) end) as [sg s1].
+    destruct s1 as [|c1 s2]; [discriminate|].
+    destruct (is_c 48 c1).
+    - destruct s2 as [|x s3]; [apply Hfr|]. destruct (is_c 120 x); [apply Hhx|apply Hfr].
+    - destruct (is_num c1); [|discriminate]. destruct (span is_num s2). apply Hfr. }
+  destruct (is_c 39 c). { unfold lex_string. destruct (str_loop r) as [[a b]|]; discriminate. }
+  destruct (is_c 125 c) eqn:E3.
+  { apply is_c_true in E3. subst c. destruct r as [|c2 r2]; [discriminate|].
+    destruct (is_c 125 c2) eqn:E4; [|discriminate]. apply is_c_true in E4. subst c2.
+    intros H. inv H. auto. }
+  unfold lex_opt_eq, lex_double, lex_char.
+  repeat match goal with
+  | |- (if is_c ?n c then _ else _) = _ -> _ => destruct (is_c n c)
+  | |- match r with _ => _ end = _ -> _ => destruct r as [|c2 r2]
+  | |- (if ?b then _ else _) = _ -> _ => destruct b
+  end; discriminate.
+Qed.
+
+Lemma num_lexeme_head strict plus k lx : num_lexeme strict plus k lx ->
+  exists c r, lx = String c r /\ is_ident_start c = false /\ (is_num c || is_c 45 c) = true /\ is_ws c = false.
+Proof.
+  assert (Hn : forall ip, nolead is_num ip -> exists c r, ip = String c r /\ is_ident_start c = false /\
+                 (is_num c || is_c 45 c) = true /\ is_ws c = false).
+  { intros ip Hip. destruct (nolead_head_num _ Hip) as (d & r & -> & Nd). exists d, r.
+    split; [reflexivity|]. split; [now apply num_not_start|]. rewrite Nd. split; [reflexivity|].
+    destruct (is_ws d) eqn:W; [|reflexivity]. apply ws_not_start in W. destruct W as (_ & W & _). congruence. }
+  destruct 1 as [sg ds Hsg Hds | sg ip fr ex Hsg Hip Hfr Hex].
+  - destruct Hsg as [->| ->]; cbn; eexists; eexists; (split; [reflexivity|]); repeat split; reflexivity.
+  - destruct Hsg as [->| ->].
+    + destruct (Hn _ Hip) as (c & r & -> & A & B & C). cbn. eauto 10.
+    + cbn. eexists; eexists; (split; [reflexivity|]); repeat split; reflexivity.
+Qed.
+
+Lemma scan_tok_complete plus k lx rest :
+  lexeme true plus k lx -> follow_ok k lx rest -> scan_tok plus (lx ++ rest) = SOk k lx rest.
+Proof.
+  intros L Fo.
+  assert (Hnum : num_lexeme true plus k lx -> scan_tok plus (lx ++ rest) = SOk k lx rest).
+  { intros N. destruct (num_lexeme_head _ _ _ _ N) as (c & r & E & A & B & _).
+    rewrite <- (lex_num_complete plus k lx rest N Fo). rewrite E. cbn [append]. unfold scan_tok.
+    rewrite A, B. reflexivity. }
+  destruct k; cbn in L, Fo; try (now apply Hnum); clear Hnum; try (subst lx; crunch; reflexivity).
+  - (* ident *)
+    destruct L as (c & r & -> & S & F). cbn [append]. unfold scan_tok. rewrite S.
+    rewrite (span_complete _ _ _ F Fo). reflexivity.
+  - (* string *)
+    destruct L as (body & -> & B). crunch. unfold lex_string. rewrite sapp_assoc.
+    rewrite (str_loop_complete _ _ B Fo). reflexivity.
+  - (* ! *)
+    subst lx. crunch. unfold lex_opt_eq. destruct rest as [|c2 r2]; [reflexivity|].
+    cbn in Fo. unfold fnot in Fo. destruct (is_c 61 c2); [discriminate|reflexivity].
+  - (* < *)
+    subst lx. crunch. unfold lex_opt_eq. destruct rest as [|c2 r2]; [reflexivity|].
+    cbn in Fo. unfold fnot in Fo. destruct (is_c 61 c2); [discriminate|reflexivity].
+  - (* > *)
+    subst lx. crunch. unfold lex_opt_eq. destruct rest as [|c2 r2]; [reflexivity|].
+    cbn in Fo. unfold fnot in Fo. destruct (is_c 61 c2); [discriminate|reflexivity].
+Qed.
+
+Lemma lexeme_head strict plus k lx : lexeme strict plus k lx -> exists c r, lx = String c r /\ is_ws c = false.
+Proof.
+  destruct k; cbn; intros L;
+    try (destruct (num_lexeme_head _ _ _ _ L) as (c & r & -> & _ & _ & W); eauto);
+    try (subst lx; eexists; eexists; split; reflexivity).
+  - destruct L as (c & r & -> & S & _). exists c, r. split; [reflexivity|].
+    destruct (is_ws c) eqn:W; [|reflexivity]. apply ws_not_start in W. destruct W as (W & _). congruence.
+  - destruct L as (body & -> & _). eexists; eexists; split; reflexivity.
+Qed.
+
+(* ------------------------------------------------------------ positions *)
+Lemma adv_str_app p a b : adv_str p (a ++ b) = adv_str (adv_str p a) b.
+Proof. revert p. induction a as [|c r IH]; intros p; cbn; [reflexivity|apply IH]. Qed.
+
+Lemma t_off_adv p c : t_off (adv p c) = (t_off p + 1)%N.
+Proof. unfold adv. destruct (is_c 10 c); [reflexivity|]. destruct (is_cont_byte c); reflexivity. Qed.
+
+Lemma t_off_adv_str p s : t_off (adv_str p s) = (t_off p + N.of_nat (String.length s))%N.
+Proof.
+  revert p. induction s as [|c r IH]; intros p; cbn [adv_str String.length].
+  - cbn. lia.
+  - rewrite IH, t_off_adv. lia.
+Qed.
+
+Lemma substring_prefix b c : substring 0 (String.length b) (b ++ c) = b.
+Proof. induction b as [|x b IH]; cbn; [destruct c; reflexivity|]. now rewrite IH. Qed.
+
+Lemma substring_mid a b c : substring (String.length a) (String.length b) (a ++ b ++ c) = b.
+Proof. induction a as [|x a IH]; cbn; [apply substring_prefix|exact IH]. Qed.
+
+(* ------------------------------------------------------------ runs of the lexer *)
+Lemma lex_next_unfold plus st :
+  lex_next plus st =
+  let (w, s1) := span is_ws (ls_rest st) in
+  let start := adv_str (ls_pos st) w in
+  match scan_tok plus s1 with
+  | SOk k lx rest => (LTok (mkTok k lx start), mkLS rest (adv_str start lx))
+  | SEnd lx rest => (LEnd start, mkLS rest (adv_str start lx))
+  | SErr c consumed => (LErr (mkLErr c (adv_str start consumed)) start, mkLS s1 start)
+  end.
+Proof. reflexivity. Qed.
+
+Local Arguments lex_next : simpl never.
+Local Arguments scan_tok : simpl never.
+
+Lemma lex_run_sound plus fuel : forall st ts e a,
+  lex_run plus fuel st = (ts, FEnd e a) -> tokenises true plus (ls_pos st) (ls_rest st) ts e a.
+Proof.
+  induction fuel as [|fuel IH]; intros st ts e a H; [discriminate|].
+  cbn [lex_run] in H. rewrite lex_next_unfold in H.
+  destruct (span is_ws (ls_rest st)) as [w s1] eqn:S.
+  apply span_sound in S. destruct S as (ER & W & _). rewrite ER.
+  cbn zeta in H. destruct (scan_tok plus s1) as [k lx rest|lx rest|c consumed] eqn:T.
+  - destruct (lex_run plus fuel (mkLS rest (adv_str (adv_str (ls_pos st) w) lx))) as [ts' f'] eqn:R.
+    inv H. apply IH in R. cbn in R. apply scan_tok_sound in T. destruct T as (-> & L & Fo).
+    apply TK_tok; auto. now rewrite adv_str_app.
+  - inv H. apply scan_tok_end in T. destruct T as (-> & ->). cbn [ls_pos].
+    rewrite <- adv_str_app. apply TK_end. exact W.
+  - discriminate.
+Qed.
+
+Lemma lex_run_complete plus p s ts e a :
+  tokenises true plus p s ts e a ->
+  forall fuel, String.length s < fuel -> lex_run plus fuel (mkLS s p) = (ts, FEnd e a).
+Proof.
+  induction 1 as [p ws tail W | p ws k lx rest ts e a W L Fo T IH]; intros fuel Hf.
+  - destruct fuel; [lia|]. cbn [lex_run]. rewrite lex_next_unfold. cbn [ls_rest ls_pos].
+    rewrite (span_complete _ _ _ W) by reflexivity. cbn zeta.
+    change (scan_tok plus ("}}" ++ tail)) with (SEnd "}}" tail). cbn [ls_pos].
+    now rewrite adv_str_app.
+  - destruct fuel; [lia|]. cbn [lex_run]. rewrite lex_next_unfold. cbn [ls_rest ls_pos].
+    destruct (lexeme_head _ _ _ _ L) as (c & r & E & Wc).
+    rewrite (span_complete is_ws ws (lx ++ rest)); auto.
+    2:{ rewrite E. cbn. unfold fnot. now rewrite Wc. }
+    cbn zeta. rewrite (scan_tok_complete _ _ _ _ L Fo).
+    rewrite <- adv_str_app. rewrite IH; [reflexivity|].
+    rewrite !slen_app in Hf. rewrite E in Hf. cbn in Hf. lia.
+Qed.
+
+Theorem lex_sound plus src ts e a :
+  lex_all plus src = (ts, FEnd e a) -> tokenises true plus pos0 src ts e a.
+Proof. unfold lex_all. intros H. now apply lex_run_sound in H. Qed.
+
+Theorem lex_complete plus src ts e a :
+  tokenises true plus pos0 src ts e a -> lex_all plus src = (ts, FEnd e a).
+Proof. intros T. unfold lex_all. apply (lex_run_complete _ _ _ _ _ _ T). lia. Qed.
+
+(* the fuel of lex_all suffices *)
+Lemma lex_run_no_fuel plus fuel : forall st ts f,
+  String.length (ls_rest st) < fuel -> lex_run plus fuel st = (ts, f) -> f <> FFuel.
+Proof.
+  induction fuel as [|fuel IH]; intros st ts f Hf H; [lia|].
+  cbn [lex_run] in H. rewrite lex_next_unfold in H.
+  destruct (span is_ws (ls_rest st)) as [w s1] eqn:S.
+  apply span_sound in S. destruct S as (ER & _ & _).
+  cbn zeta in H. destruct (scan_tok plus s1) as [k lx rest|lx rest|c consumed] eqn:T.
+  - destruct (lex_run plus fuel (mkLS rest (adv_str (adv_str (ls_pos st) w) lx))) as [ts' f'] eqn:R.
+    inv H. apply IH in R; auto. cbn.
+    apply scan_tok_sound in T. destruct T as (-> & L & _).
+    destruct (lexeme_head _ _ _ _ L) as (c & r & -> & _).
+    rewrite ER, !slen_app in Hf. cbn in Hf. lia.
+  - inv H. discriminate.
+  - inv H. discriminate.
+Qed.
+
+Theorem lex_all_no_fuel plus src ts f : lex_all plus src = (ts, f) -> f <> FFuel.
+Proof. unfold lex_all. apply lex_run_no_fuel. cbn. lia. Qed.
+
+(* every token handed out (also before a lexical error) is the slice of the
+   source at its offset, and STRING tokens are string lexemes *)
+Definition tok_ok plus (src : string) (t : token) : Prop :=
+  tok_at src t /\ lexeme true plus (tk_kind t) (tk_val t).
+
+Lemma lex_run_tokens plus whole fuel : forall st ts f pre,
+  whole = pre ++ ls_rest st -> t_off (ls_pos st) = N.of_nat (String.length pre) ->
+  lex_run plus fuel st = (ts, f) -> Forall (tok_ok plus whole) ts.
+Proof.
+  induction fuel as [|fuel IH]; intros st ts f pre EW EO H.
+  { inv H. constructor. }
+  cbn [lex_run] in H. rewrite lex_next_unfold in H.
+  destruct (span is_ws (ls_rest st)) as [w s1] eqn:S.
+  apply span_sound in S. destruct S as (ER & _ & _).
+  cbn zeta in H. destruct (scan_tok plus s1) as [k lx rest|lx rest|c consumed] eqn:T.
+  - destruct (lex_run plus fuel (mkLS rest (adv_str (adv_str (ls_pos st) w) lx))) as [ts' f'] eqn:R.
+    inv H. apply scan_tok_sound in T. destruct T as (-> & L & _).
+    constructor.
+    + split; [|exact L]. unfold tok_at, tk_off. cbn [tk_pos tk_val].
+      rewrite t_off_adv_str, EO, <- Nnat.Nat2N.inj_add, Nnat.Nat2N.id, <- slen_app.
+      rewrite ER, <- sapp_assoc. apply substring_mid.
+    + apply (IH _ _ _ ((pre ++ w) ++ lx) ) in R; auto.
+      * cbn. rewrite ER. now rewrite !sapp_assoc.
+      * cbn. rewrite !t_off_adv_str, EO, !slen_app. lia.
+  - inv H. constructor.
+  - inv H. constructor.
+Qed.
+
+Theorem lex_offsets plus src ts f : lex_all plus src = (ts, f) -> Forall (tok_ok plus src) ts.
+Proof.
+  unfold lex_all. intros H.
+  exact (lex_run_tokens plus src (S (String.length src)) (mkLS src pos0) ts f "" eq_refl eq_refl H).
+Qed.
+
+Corollary lex_strings_wf plus src ts f : lex_all plus src = (ts, f) ->
+  Forall (fun t => tk_kind t = TString -> unquote (tk_val t) <> None) ts.
+Proof.
+  intros H. apply lex_offsets in H. eapply Forall_impl; [|exact H].
+  intros t (_ & L) K. rewrite K in L. now apply string_lexeme_unquote.
+Qed.
